@@ -5,7 +5,7 @@ from __future__ import annotations
 from sa.canon import canon
 from sa.peval import peval
 from sa.report import Ctx
-from sa.sym import FALSE, NONE, NOT, Summary, bind_args, conjuncts, show, subst, walk
+from sa.sym import callkw, FALSE, NONE, NOT, Summary, bind_args, conjuncts, show, subst, walk
 
 IO = "soundevent.audio.io"
 AOP = "soundevent.audio.operations"
@@ -149,7 +149,7 @@ class C15:
                 [c for c in conjuncts(reads[0].live) if c[0] == "cmp"]:
             ctx.bad("R15.2", file, "load_audio", f"read only if {show(reads[0].live)[:80]}",
                     "the file is read only under a condition on offset/samples", reads[0].lineno)
-        kw = dict(reads[0].term[3])
+        kw = callkw(reads[0].term)
         frames = kw.get("frames", reads[0].term[2][0] if reads[0].term[2] else None)
         want_frames = ("ite", ("cmp", "is", samples, NONE), ("const", -1), samples)
         conds = {
@@ -177,7 +177,7 @@ class C15:
         if len(st) != 1:
             ctx.undec("R15.3", site, f"{len(st)} stft calls")
             return
-        kw = dict(st[0].term[3])
+        kw = callkw(st[0].term)
         fs, nperseg, noverlap = kw.get("fs"), kw.get("nperseg"), kw.get("noverlap")
         if fs is None or nperseg is None or noverlap is None:
             ctx.undec("R15.3", site, "stft not called with fs / nperseg / noverlap keywords")
@@ -243,7 +243,7 @@ class C15:
         tb, _, _, _ = bind_args(tdim[0], ts.params)
         res = rs[0].term
         times = ("attr", ("sub", ("attr", ("param", "array"), "coords"), ("param", "dim")), "values")
-        kw = dict(res[3])
+        kw = callkw(res)
         if tb.get(ts.params[0]) == ("sub", res, ("const", 1)) and canon(tb.get("step", NONE)) == canon(("bin", "/", ("const", 1), target)) and kw.get("t") == times:
             ctx.ok("R15.3", site, "resampled axis = scipy's resampled times of the source axis; step = 1 / target samplerate")
         else:
@@ -277,7 +277,7 @@ class C15:
                    ("cmp", "is", sr, NONE): True, ("cmp", "isnot", sr, NONE): False}
             v = peval(st[0].term[2], env)
             lv = peval(st[0].live, env)
-            data_ok = dict(var[0][3]).get("data") == ("param", s.params[0])
+            data_ok = callkw(var[0]).get("data") == ("param", s.params[0])
             if v == step and lv == ("const", True) and data_ok:
                 ctx.ok("R15.3", site, "a given step is recorded unchanged; the coordinates are stored as given")
             else:
